@@ -333,9 +333,9 @@ def _run(ctx):
                     "boundaries, enums over their declared values; built through ThriftObject.from_fields with IDL-consistent i32/i32list markers, "
                     "and parsed from bytes encoded by the proved specification writer; plus untyped random Python objects for the model-as-function "
                     "correspondence; trivial = empty struct; distinct = distinct (stream, tree)") % ", ".join(ROOTS)
-        stream_api(ctx, pq, w, enums, structs, specs_names)
+        stream_api(ctx, pq, w, root, enums, structs, specs_names)
         stream_pickle(ctx, w, enums, structs, specs_names)
-        stream_foreign(ctx, pq, w, enums, structs, specs_names)
+        stream_foreign(ctx, pq, w, root, enums, structs, specs_names)
         stream_generic(ctx, pq, w)
         stream_dict_eq(ctx, pq, w)
         stream_boundary(ctx, pq, root, enums, structs)
@@ -404,9 +404,9 @@ def translators(ctx):
 
 # ---- stream 1: built through the API -----------------------------------------------------------------
 
-def stream_api(ctx, pq, w, enums, structs, specs_names):
+def stream_api(ctx, pq, w, root, enums, structs, specs_names):
     rng = ctx.rng
-    n = 500 if ctx.quick() else 9000
+    n = 500 if ctx.quick() else 6000
     g = Gen(rng, enums, structs, specs_names, "main")
     trees = corpus_trees()
     ctx.extra["corpus_cases"] = len(trees)
@@ -415,6 +415,14 @@ def stream_api(ctx, pq, w, enums, structs, specs_names):
         g.budget = 0
         lens = rng.choice([(1, 2, 3), (1, 14, 15, 16), (1, 2, 100), (1, 15), (2, 16)])
         trees.append(g.struct(rootname, 0, lens))
+    encs = pq.batch([("thrift_enc", to_tv(tr)) for tr in trees])
+    keep = []
+    for tr, e in zip(trees, encs):
+        if len(bytes(e[1])) > cap_lo(tr):
+            oversize_case(ctx, pq, root, tr, len(bytes(e[1])), "api")
+        else:
+            keep.append(tr)
+    trees = keep
     impl = []
     for tr in trees:
         impl.append(w.call("api_roundtrip", to_recipe(tr)))
@@ -455,6 +463,41 @@ def stream_api(ctx, pq, w, enums, structs, specs_names):
                      "strict IDL-typed parse of to_bytes(x) is not the tree that was built: %r" % (T.canon(m_idl)[:2],))
 
 
+def cap_lo(tr):
+    """lower bound of the buffer ThriftObject.to_bytes allocates for this tree (the key-value text only adds to it)"""
+    def ln(fid):
+        for f, fn, t, v in tr[2]:
+            if f == fid and v[0] == "list":
+                return len(v[2])
+        return 0
+    size = 0
+    if tr[1] == "RowGroup":
+        size = 1000 * ln(1)
+    elif tr[1] == "FileMetaData":
+        size = 1000 * ln(4) * ln(2)
+    return max(size, CAP)
+
+
+def oversize_case(ctx, pq, root, tr, size, stream):
+    """a generated structure whose serialisation exceeds the fixed buffer: the known overflow/truncation region;
+    run alone in a fresh subprocess, oracle only"""
+    case = {"stream": stream + "-oversize", "root": tr[1], "tree": tree_json(tr), "serialised_size": size, "capacity_at_least": cap_lo(tr)}
+    ctx.case(case)
+    ctx.count("oversize.root", tr[1])
+    cls = {"component": "to_bytes", "kind": "overflow", "over": size - cap_lo(tr), "stream": stream}
+    r = one_shot(root, ctx.scratch, "api_roundtrip", to_recipe(tr))
+    if r[0] != "ok":
+        ctx.fail(dict(cls, outcome="crash" if r[0] == "crash" else r[0]), case, "worker: %r" % (r[:3],))
+        return
+    b, x, y, eq, cap = r[1]
+    want = bytes(pq.call("thrift_enc", to_tv(tr))[1])
+    if size > cap and (b != want or not eq):
+        ctx.fail(dict(cls, outcome="returned", over=size - cap), case, "to_bytes returned %d bytes, the serialisation has %d" % (len(b), len(want)))
+    elif b != want or not eq:
+        ctx.fail({"component": "to_bytes", "kind": "wrong-bytes", "stream": stream, "root": tr[1]}, case,
+                 "serialisation fits (%d <= %d) but to_bytes/from_buffer lose it" % (size, cap))
+
+
 def canon_out(m):
     if sym(m[0]) == "ok":
         return ["ok", "#" + bytes(m[1]).hex()]
@@ -473,8 +516,11 @@ def stream_pickle(ctx, w, enums, structs, specs_names):
     rng = ctx.rng
     g = Gen(rng, enums, structs, specs_names, "main")
     for i in range(60 if ctx.quick() else 600):
-        g.budget = 0
-        tr = g.struct(ROOTS[i % len(ROOTS)], 0, (1, 2, 15))
+        while True:
+            g.budget = 0
+            tr = g.struct(ROOTS[i % len(ROOTS)], 0, (1, 2, 15))
+            if tree_stats(tr, {}).get("maxblob", 0) <= 20000:       # stay far below the fixed buffer (known overflow region)
+                break
         case = {"stream": "pickle", "root": tr[1], "tree": tree_json(tr)}
         ctx.case(case, trivial=(not tr[2]))
         r = w.call("pickle", (tr[1], to_raw(tr)))
@@ -496,15 +542,21 @@ def corpus_trees():
 
 # ---- stream 2: parsed from independently (spec-)encoded bytes, then re-serialised ---------------------
 
-def stream_foreign(ctx, pq, w, enums, structs, specs_names):
+def stream_foreign(ctx, pq, w, root, enums, structs, specs_names):
     rng = ctx.rng
-    n = 400 if ctx.quick() else 6000
+    n = 400 if ctx.quick() else 4000
     g = Gen(rng, enums, structs, specs_names, "main")
     trees = []
     for i in range(n):
         g.budget = 0
         trees.append(g.struct(ROOTS[i % len(ROOTS)], 0, rng.choice([(1, 2, 3), (1, 14, 15, 16), (1, 100)])))
     encs = pq.batch([("thrift_enc", to_tv(tr)) for tr in trees])
+    keep = [(tr, e) for tr, e in zip(trees, encs) if len(bytes(e[1])) <= cap_lo(tr)]
+    for tr, e in zip(trees, encs):
+        if len(bytes(e[1])) > cap_lo(tr):
+            oversize_case(ctx, pq, root, tr, len(bytes(e[1])), "foreign")
+    trees = [tr for tr, e in keep]
+    encs = [e for tr, e in keep]
     cmds, impl = [], []
     for tr, e in zip(trees, encs):
         b0 = bytes(e[1])
@@ -533,7 +585,7 @@ def stream_foreign(ctx, pq, w, enums, structs, specs_names):
 
 def stream_generic(ctx, pq, w):
     rng = ctx.rng
-    n = 600 if ctx.quick() else 8000
+    n = 600 if ctx.quick() else 6000
     objs = [gen_obj(rng) for _ in range(n)]
     impl = [w.call("to_bytes", ("KeyValue", o)) for o in objs]
     outs = pq.batch([("c_to_bytes", CAP, T.pv(o)) for o in objs])
@@ -616,7 +668,7 @@ def eq_safe(o):
 
 def stream_dict_eq(ctx, pq, w):
     rng = ctx.rng
-    n = 400 if ctx.quick() else 5000
+    n = 400 if ctx.quick() else 4000
     pairs = []
     for _ in range(n):
         a = gen_obj(rng)
